@@ -2,24 +2,40 @@
 #![allow(clippy::all)]
 pub mod src;
 pub mod common;
+pub mod c01;
+pub mod c04;
+pub mod c06;
 pub mod c07;
 pub mod c09;
 pub mod c10;
+pub mod c11;
 pub mod c12;
+pub mod c12r;
 pub mod c13;
+pub mod c14;
 pub mod c15;
+pub mod c16;
 pub mod c17;
 pub mod c18;
+pub mod c19;
 
 pub fn registry() -> Vec<(&'static str, src::ReplayFn)> {
     let mut v = Vec::new();
+    v.extend_from_slice(c01::REGISTRY);
+    v.extend_from_slice(c04::REGISTRY);
+    v.extend_from_slice(c06::REGISTRY);
     v.extend_from_slice(c07::REGISTRY);
+    v.extend_from_slice(c16::REGISTRY);
     v.extend_from_slice(c09::REGISTRY);
     v.extend_from_slice(c10::REGISTRY);
+    v.extend_from_slice(c11::REGISTRY);
     v.extend_from_slice(c12::REGISTRY);
+    v.extend_from_slice(c12r::REGISTRY);
     v.extend_from_slice(c13::REGISTRY);
+    v.extend_from_slice(c14::REGISTRY);
     v.extend_from_slice(c15::REGISTRY);
     v.extend_from_slice(c17::REGISTRY);
     v.extend_from_slice(c18::REGISTRY);
+    v.extend_from_slice(c19::REGISTRY);
     v
 }
